@@ -157,6 +157,21 @@ func judgeC05(rep *core.Report, c *CaseResult, v *SetupView, fi *FuncInfo, exps 
 			report("path-emitted-twice", map[string]string{"count": fmt.Sprint(n)}, fmt.Sprintf("destination path %s has %d items", p, n))
 		}
 	}
+	judgeC05Warnings(rep, c, fi, lines, "plain")
+}
+
+// judgeC05Warnings: positioned stderr warnings >= number of '// no match:' items of the function.
+func judgeC05Warnings(rep *core.Report, c *CaseResult, fi *FuncInfo, lines map[int]bool, mode string) {
+	nNoMatch := 0
+	for i := range fi.Plan.Items {
+		if fi.Plan.Items[i].Kind == "nomatch" {
+			nNoMatch++
+		}
+	}
+	report := func(sym string, feat map[string]string, detail string) {
+		feat["mode"] = mode
+		rep.Violate(&core.Violation{Property: "C05", Monitor: "warnings", Symptom: sym, Features: feat, Case: c.S.ID, Detail: fi.Plan.Key() + " [" + mode + "]: " + detail, Files: c.ReplayFiles()})
+	}
 	// (4) warnings
 	nWarn := 0
 	base := filepath.Base(c.S.Setup)
@@ -236,6 +251,22 @@ func RunC05(e *core.Env) int {
 		for key, fi := range infos {
 			if exps := models[key]; exps != nil {
 				judgeC05(rep, c, v, fi, exps, ml[fi.Method.Name])
+			}
+		}
+		// the warnings must reach stderr with -log as well (the log file is an addition, not a replacement)
+		if strings.Contains(string(c.Out), "// no match:") && core.Rand(e.Seed, "c05-log", c.S.ID).Intn(4) == 0 {
+			r2 := e.Run(core.RunSpec{Args: []string{"-log", filepath.Base(c.S.Setup)}, Dir: filepath.Join(c.Root, c.S.PkgRel), WallSec: 120})
+			rep.Count("reruns_with_log", 1)
+			if r2.Exit == 0 {
+				c2 := *c
+				c2.Run = r2
+				for key, fi := range infos {
+					if exps := models[key]; exps != nil {
+						f2 := *fi
+						f2.Case = &c2
+						judgeC05Warnings(rep, &c2, &f2, ml[fi.Method.Name], "with-log")
+					}
+				}
 			}
 		}
 		if strings.Contains(string(c.Out), "// no match:") {
